@@ -166,6 +166,10 @@ func onceScenario(r *rand.Rand, failP float64) (Scenario, []FuncSpec) {
 			if r.Intn(2) == 0 || n == 0 {
 				s.Convs[i].Once = true
 				s.Convs[i].Deliver = DelFunc
+				if r.Intn(3) == 0 {
+					// the same *Func handed out by a generator on every call
+					s.Convs[i].Deliver = DelGen
+				}
 				n++
 				if chance(r, failP) {
 					s.Convs[i].HasErr, s.Convs[i].Fail = true, true
@@ -178,6 +182,7 @@ func onceScenario(r *rand.Rand, failP float64) (Scenario, []FuncSpec) {
 		if n == 0 {
 			continue
 		}
+		fixDelivery(&s, r)
 		// extra targets: each needs one or two of the labels converters produce
 		var extra []FuncSpec
 		var produced []Label
